@@ -202,6 +202,8 @@ def judge_trusted(case, impl, model):
                     tag_list.append("mapper:cascade")
                 if not mapper_free and _uses_unmapped_names(cls, case["doc"], case.get("mapperSpec") or {}):
                     tag_list.append("mapper:fallback")
+                if not mapper_free and not _extras_quiet(cls, case["doc"], case.get("mapperSpec") or {}, impl.get("opts_actual") or {}):
+                    tag_list.append("dropped:undeclared-keys")     # the regular path keeps a renamed field's ORIGINAL key too
                 in_region = bool((mapper_free and model.get("tsafe") and model.get("plain"))
                                  or (mapped_scope and model.get("tsafe") and model.get("plainMapped")))
                 explained = m_tru is None and (m_reg is None)
@@ -376,6 +378,14 @@ def judge_fast(case, impl, model):
         d = S.res_same(cls, model["regular"], reg, doc=True)
         if d and "exception class differs" not in d:
             msgs.append("regular serialize: " + d)
+    cascade = "fast:mapper-cascade" in (model.get("fastDefects") or [])
+    fmap_region = bool(not mapper_free and model.get("fmapRegion") and not cascade)
+    if (fmap_region and in_scope and reg is not None and "regularMapped" in model and model.get("fsafe")
+            and "fast:extras-dropped" not in (model.get("fastDefects") or [])):
+        # the regular serializer with a mapper on the class itself (none below): the mapper-free document, keys renamed
+        d = S.res_same(cls, model["regularMapped"], reg, doc=True, mapped=True)
+        if d and "exception class differs" not in d:
+            msgs.append("regular serialize (with mapper): " + d)
     # (a nested class whose own serializer cannot be created cannot be instantiated at all: `fast_inst_err`;
     #  such class trees are outside the statement's domain and only the verdict is compared)
     if impl.get("inst_unchanged") is False:
@@ -395,8 +405,8 @@ def judge_fast(case, impl, model):
                 what = "serializer-wrapper-differs"
         if what:
             tag_list = [t for t in model.get("fastDefects", []) if t != "fast:serialize-none"]
-            in_region = bool(mapper_free and not case.get("nonFast") and model.get("fsafe") and model.get("fwf")
-                             and "fast:compact-conditions" not in tag_list)
+            in_region = bool((mapper_free or (fmap_region and not case["compact"])) and not case.get("nonFast")
+                             and model.get("fsafe") and model.get("fwf") and "fast:compact-conditions" not in tag_list)
             explained = m_fast is None
             key = attribute(what, in_region, explained, tag_list)
             fails.append((key, f"create_serializer(compact={case['compact']}, serialize_none={case['serializeNone']}) succeeded "
